@@ -166,6 +166,8 @@ SIGS = [
     "(a, b='x') -> Tuple[()]", "(a, b='->')",
     # the conversion raises AFTER parsing on the pinned tree (header re-parse fails): the file must come out untouched
     "(key, default=None) -> \"Mapping[str: int]\"",
+    # a return annotation that itself contains a colon (removed / replaced by the return-type splice)
+    "(a, b=80) -> Literal[\"host:port\", \"host\"]",
 ]
 
 
@@ -323,6 +325,11 @@ def main(tier, write_baseline=False):
             r = replay_block.replay(c, o["model"])
             if r and r.get("requires_hold") and (r.get("failed_ensures") or r.get("block_raised")):
                 model_replays[o["name"]] = {"contract": c.qual, "counterexample replayed on the real statements (CPython)": r}
+        cf = next((c for c in C7.CONTRACTS if c.block is None and "/%s/" % c.qual in o["name"]), None)
+        if cf is not None and o.get("model"):
+            r = replay_block.replay_function(cf, o["model"])
+            if r and r.get("requires_hold") and r.get("failed_ensures"):
+                model_replays[o["name"]] = {"contract": cf.qual, "counterexample replayed on the real function (CPython)": r}
     frame_refuted = []
     for name, ok, detail in frame_obligations():
         st = UNDECIDED if ok is None else (PROVED if ok else REFUTED)
@@ -377,6 +384,12 @@ def replay(path):
         from cddvc import replay_block
         fi = d["failing_input"]
         c = next(c for c in C7.CONTRACTS if c.qual == fi["contract"])
+        if "counterexample replayed on the real function (CPython)" in fi:
+            env = fi["counterexample replayed on the real function (CPython)"]["env"]
+            model = {k + "!0": ('"%s"' % v.replace('"', '""') if isinstance(v, str) else str(v)) for k, v in env.items()}
+            r = replay_block.replay_function(c, model)
+            print(json.dumps(r, indent=1, default=str)[:2000])
+            return 1 if r and r.get("requires_hold") and r.get("failed_ensures") else 0
         env = fi["counterexample replayed on the real statements (CPython)"]["env"]
         model = {}
         for k, v in env.items():
